@@ -654,6 +654,9 @@ func (r *Runtime) arrayproto_includes(call FunctionCall) Value {
 
 	if arr := r.checkStdArrayObj(o); arr != nil {
 		for _, val := range arr.values[n:] {
+			if val == _negativeZero {
+				val = _positiveZero
+			}
 			if searchElement.SameAs(val) {
 				return valueTrue
 			}
@@ -664,6 +667,9 @@ func (r *Runtime) arrayproto_includes(call FunctionCall) Value {
 	for ; n < length; n++ {
 		idx := valueInt(n)
 		val := nilSafe(o.self.getIdx(idx, nil))
+		if val == _negativeZero {
+			val = _positiveZero
+		}
 		if searchElement.SameAs(val) {
 			return valueTrue
 		}
